@@ -242,9 +242,19 @@ def expected_value(n, view, cfg, provider):
     return None
 
 
+def merge_must_fail(cfg, obs):
+    """a unique, non-reorderable middleware type met twice while merging: construction must fail (ValueError)"""
+    if obs['construct'] == 'ok' and any(v[3] is None for v in construction_views(cfg)):
+        return ('construction succeeded although a unique non-reorderable middleware type occurs twice on the way from the '
+                'outermost application to the route (ValueError expected)', 'merge-error-missing')
+    return None
+
+
 def oracle_c02(cfg, obs):
     if obs['construct'] != 'ok':
         return None
+    if merge_must_fail(cfg, obs):
+        return None                       # C03's business
     if has_posonly_in_scope(cfg):
         return None                       # known finding F2 (C01)
     for view in views(cfg):
@@ -349,6 +359,8 @@ def expected_trace(view, scripts):
 def oracle_c03(cfg, obs):
     if obs['construct'] != 'ok':
         return None
+    if merge_must_fail(cfg, obs):
+        return merge_must_fail(cfg, obs)
     if has_posonly_in_scope(cfg):
         return None                       # known finding F2 (C01): the call itself fails, possibly swallowed by a layer
     for view in views(cfg):
